@@ -242,3 +242,107 @@ package render
 //@ props C07 C01
 //@ assigns nothing
 //@ ensures def: result == c.Token.Source
+
+// ---- render tree (C05, C07, C13, C20) ------------------------------------------------
+// Every node renders only into the trimWriter it is given; an error is returned, located
+// (C07), and nothing panics (C20). total(w) = wtotal(w.w) ++ w.buf.
+
+//@ interface render.Node
+//@ method render
+//@ requires args: arg0 != nil
+//@ assigns *
+//@ ensures sink: arg0.w == old(arg0.w)
+//@ ensures onlyw: forall(x, "Val", x != arg0.w && !newbuf(x) ==> wtotal(x) == old(wtotal(x)))
+
+//@ func (*render.TextNode).render
+//@ props C05 C13 C20 C07 C01
+//@ panics nothing
+//@ assigns F$render.trimWriter$buf, F$render.trimWriter$trim, writer, alloc S$Int, alloc F$parser.sourceLocError$SourceLoc, alloc F$parser.sourceLocError$context, alloc F$parser.sourceLocError$message, alloc F$parser.sourceLocError$cause, alloc S$Val
+//@ requires args: w != nil
+//@ ghost werr Val = nil
+//@ at call WriteString #1 assert verbatim: arg1 == n.Source
+//@ at call WriteString #1: werr = result1
+//@ ensures verbatim: result == nil ==> cat(wtotal(w.w), w.buf) == cat(old(cat(wtotal(w.w), w.buf)), ite(old(w.trim), ltrim(n.Source), n.Source))
+//@ ensures reported: werr != nil ==> result != nil && result.Cause() == werr && result.LineNumber() == n.SourceLoc.LineNo && result.Path() == n.SourceLoc.Pathname
+//@ ensures ok: werr == nil ==> result == nil
+
+//@ func (*render.RawNode).render
+//@ props C05 C20 C01
+//@ panics nothing
+//@ requires args: w != nil
+//@ ghost count Int = 0
+//@ ghost werr Val = nil
+//@ at call WriteString #1 assert inOrder: arg1 == n.slices[count] && werr == nil
+//@ at call WriteString #1: count = count + 1
+//@ at call WriteString #1: werr = result1
+//@ loop 1 invariant progress: count == _i && werr == nil
+//@ ensures all: result == nil ==> count == len(n.slices)
+//@ ensures reported: werr != nil ==> result != nil && result.Cause() == werr
+//@ ensures ok: werr == nil ==> result == nil
+
+//@ func (*render.TrimNode).render
+//@ props C13 C20 C01
+//@ panics nothing
+//@ requires args: w != nil
+//@ ghost lerr Val = nil
+//@ ghost left Int = 0
+//@ ghost right Int = 0
+//@ at call TrimLeft #1: left = left + 1
+//@ at call TrimLeft #1: lerr = result
+//@ at call TrimRight #1: right = right + 1
+//@ ensures direction: ite(n.TrimDirection == parser.Left, left == 1 && right == 0, left == 0 && right == 1)
+//@ ensures reported: lerr != nil ==> result != nil && result.Cause() == lerr
+//@ ensures ok: lerr == nil ==> result == nil
+
+//@ func (*render.SeqNode).render
+//@ props C05 C20 C07 C01
+//@ panics nothing
+//@ requires args: w != nil && forall(k, 0, len(n.Children), n.Children[k] != nil)
+//@ ghost count Int = 0
+//@ ghost cerr Val = nil
+//@ at call render #1 assert inOrder: cerr == nil
+//@ at call render #1: count = count + 1
+//@ at call render #1: cerr = result
+//@ loop 1 invariant progress: count == _i && cerr == nil && w.w == old(w.w)
+//@ ensures all: result == nil ==> count == old(len(n.Children))
+//@ ensures firstError: cerr != nil ==> result == cerr
+//@ ensures ok: cerr == nil ==> result == nil
+
+//@ func (*render.TagNode).render
+//@ props C07 C20 C01
+//@ panics nothing
+//@ requires args: w != nil && n.renderer != nil
+//@ ghost rerr Val = nil
+//@ at call renderer #1: rerr = result
+//@ ensures located: rerr != nil ==> result != nil
+//@ ensures here: rerr != nil && !is(rerr, parser.Error) ==> result.Cause() == rerr && result.LineNumber() == old(n.SourceLoc.LineNo) && result.Path() == old(n.SourceLoc.Pathname)
+//@ ensures innermost: is(rerr, parser.Error) && (rerr.(parser.Error).Path() != "" || rerr.(parser.Error).LineNumber() != 0) ==> result == rerr
+//@ ensures ok: rerr == nil ==> result == nil
+
+//@ func (render.nodeContext).RenderSequence
+//@ props C20 C05 C01
+//@ panics nothing
+//@ requires args: w != nil && forall(k, 0, len(seq), seq[k] != nil)
+//@ ghost count Int = 0
+//@ ghost cerr Val = nil
+//@ ghost ferr Val = nil
+//@ at call render #1 assert inOrder: cerr == nil
+//@ at call render #1: count = count + 1
+//@ at call render #1: cerr = result
+//@ at call Flush #1: ferr = result1
+//@ loop 1 invariant progress: count == _i && cerr == nil && tw != nil && tw.w != nil && !is(tw.w, *render.trimWriter)
+//@ ensures firstError: cerr != nil ==> result == cerr
+//@ ensures flushError: ferr != nil ==> result != nil && result.Cause() == ferr
+//@ ensures ok: cerr == nil && ferr == nil ==> result == nil
+
+//@ func render.Render
+//@ props C20 C05 C01
+//@ panics nothing
+//@ requires args: node != nil && w != nil && !is(w, *render.trimWriter)
+//@ ghost nerr Val = nil
+//@ ghost ferr Val = nil
+//@ at call render #1: nerr = result
+//@ at call Flush #1: ferr = result1
+//@ ensures nodeError: nerr != nil ==> result == nerr
+//@ ensures flushError: ferr != nil ==> result != nil && result.Cause() == ferr
+//@ ensures ok: nerr == nil && ferr == nil ==> result == nil
